@@ -11,7 +11,7 @@ def run(res, only=None):
     os.makedirs(wd, exist_ok=True)
     cases = os.path.join(wd, "srt.out")
     res.add_tlc(core.run_tlc("MC_C10", res.tier, cases, workers=8, extra_constants={"Seed": res.seed % 97}))
-    core.replay_bin(res, "rot", cases, cfgs, expect_ops=["srt3", "srt2"], env_extra={"HX_PROP": "C10"}, tag="srt")
+    core.replay_bin(res, "rot", cases, cfgs, expect_ops=["srt3", "srt2", "srt3:offgrid", "srt2:offgrid", "srt3:huge"], env_extra={"HX_PROP": "C10"}, tag="srt")
     res.rule = ("3-D: scales +-2^j in all 8 sign patterns x magnitude patterns x dense grid rotations (Euler XYZ triples of the 45-degree grid: "
                 "every matrix->quaternion branch) x integer translations on Mat4/DMat4/Affine3A/DAffine3: from_scale_rotation_translation, "
                 "the product from_translation*from_quat*from_scale, from_rotation_translation, from_mat3_translation against the exact ring "
